@@ -57,6 +57,7 @@ fcontract('SymmetricAdapter', '_encode', [
 ], tags=T, sub_seq=False, instance_cls='Validator')
 
 
+TM = ('C13', 'C03')      # label mappings are part of the wire-format specification as well
 # ------------------------------------------------------------------------------------------------ Enum / Mapping
 def mhas(pre, field, key):
     return t.app('map_has', t.BOOL, pre.self.fields[field].ident, key)
@@ -72,10 +73,10 @@ def _isint(v):
 
 fcontract('Enum', '_decode', [
     Case('any-int', 'return', lambda pre: t.TRUE, rkind=rk_dyn,
-         ensures=lambda pre, post: [('known-value-gives-its-label', t.implies(mhas(pre, 'decmapping', pre['obj'].t), result_is(post, mget(pre, 'decmapping', pre['obj'].t))), T),
+         ensures=lambda pre, post: [('known-value-gives-its-label', t.implies(mhas(pre, 'decmapping', pre['obj'].t), result_is(post, mget(pre, 'decmapping', pre['obj'].t))), TM),
                                     ('unmapped-integer-passes-through-unchanged', t.implies(t.not_(mhas(pre, 'decmapping', pre['obj'].t)),
-                                                                                           t.app('pyeq', t.BOOL, post.eng.to_dyn(post.result, post.st), pre['obj'].t)), T)]),
-], tags=T, sub_seq=False, requires=lambda pre: [('obj-is-int', _isint(pre['obj'].t))])
+                                                                                           t.app('pyeq', t.BOOL, post.eng.to_dyn(post.result, post.st), pre['obj'].t)), TM)]),
+], tags=TM, sub_seq=False, requires=lambda pre: [('obj-is-int', _isint(pre['obj'].t))])
 
 prelude.declare_fun('opq_hashable', [t.VAL], t.BOOL)
 
@@ -91,25 +92,25 @@ def _enum_enc_ok(pre):
 
 fcontract('Enum', '_encode', [
     Case('ok', 'return', _enum_enc_ok, rkind=rk_dyn,
-         ensures=lambda pre, post: [('integers-pass-through', t.implies(_isint(pre['obj'].t), t.eq(post.eng.to_dyn(post.result, post.st), pre['obj'].t)), T),
-                                    ('known-label-gives-its-value', t.implies(t.not_(_isint(pre['obj'].t)), result_is(post, mget(pre, 'encmapping', pre['obj'].t))), T)]),
+         ensures=lambda pre, post: [('integers-pass-through', t.implies(_isint(pre['obj'].t), t.eq(post.eng.to_dyn(post.result, post.st), pre['obj'].t)), TM),
+                                    ('known-label-gives-its-value', t.implies(t.not_(_isint(pre['obj'].t)), result_is(post, mget(pre, 'encmapping', pre['obj'].t))), TM)]),
     Case('unknown-label', 'raise', lambda pre: t.not_(_enum_enc_ok(pre)),
-         ensures=lambda pre, post: [('unknown-label-is-MappingError', t.implies(_hashable(pre['obj'].t), exc_is(post, 'MappingError')), T)]),
-], tags=T, sub_seq=False)
+         ensures=lambda pre, post: [('unknown-label-is-MappingError', t.implies(_hashable(pre['obj'].t), exc_is(post, 'MappingError')), TM)]),
+], tags=TM, sub_seq=False)
 
 fcontract('Mapping', '_decode', [
     Case('known', 'return', lambda pre: t.and_(_hashable(pre['obj'].t), mhas(pre, 'decmapping', pre['obj'].t)), rkind=rk_dyn,
-         ensures=lambda pre, post: [('known-value-gives-its-label', result_is(post, mget(pre, 'decmapping', pre['obj'].t)), T)]),
+         ensures=lambda pre, post: [('known-value-gives-its-label', result_is(post, mget(pre, 'decmapping', pre['obj'].t)), TM)]),
     Case('unknown', 'raise', lambda pre: t.not_(t.and_(_hashable(pre['obj'].t), mhas(pre, 'decmapping', pre['obj'].t))),
-         ensures=lambda pre, post: [('unknown-value-is-MappingError', exc_is(post, 'MappingError'), T)] + generic_raise(pre, post)),
-], tags=T, sub_seq=False)
+         ensures=lambda pre, post: [('unknown-value-is-MappingError', exc_is(post, 'MappingError'), TM)] + generic_raise(pre, post)),
+], tags=TM, sub_seq=False)
 
 fcontract('Mapping', '_encode', [
     Case('known', 'return', lambda pre: t.and_(_hashable(pre['obj'].t), mhas(pre, 'encmapping', pre['obj'].t)), rkind=rk_dyn,
-         ensures=lambda pre, post: [('known-label-gives-its-value', result_is(post, mget(pre, 'encmapping', pre['obj'].t)), T)]),
+         ensures=lambda pre, post: [('known-label-gives-its-value', result_is(post, mget(pre, 'encmapping', pre['obj'].t)), TM)]),
     Case('unknown', 'raise', lambda pre: t.not_(t.and_(_hashable(pre['obj'].t), mhas(pre, 'encmapping', pre['obj'].t))),
-         ensures=lambda pre, post: [('unknown-label-is-MappingError', exc_is(post, 'MappingError'), T)] + generic_raise(pre, post)),
-], tags=T, sub_seq=False)
+         ensures=lambda pre, post: [('unknown-label-is-MappingError', exc_is(post, 'MappingError'), TM)] + generic_raise(pre, post)),
+], tags=TM, sub_seq=False)
 
 
 # ------------------------------------------------------------------------------------------------ Adapter plumbing
@@ -123,3 +124,47 @@ fcontract('Adapter', '_build', [
          ensures=lambda pre, post: [('returns-the-value-it-was-given', t.eq(post.eng.to_dyn(post.result, post.st), pre['obj'].t), ('C01', 'C02', 'C13'))]),
     Case('fails', 'raise', lambda pre: t.TRUE, modifies=['stream']),
 ], tags=('C01', 'C02', 'C13'), sub_seq=True)
+
+
+# ------------------------------------------------------------------------------------------------ FlagsEnum._decode (C13)
+from pyvc.exec import LoopSpec  # noqa
+prelude.declare_fun('map_len', [t.INT], t.INT)
+prelude.declare_fun('map_key', [t.INT, t.INT], t.VAL)
+
+
+def _fe_entries(m, x, H, D, addr, upto):
+    """every label among the first `upto` entries of the flags mapping is present in the container at addr and is True exactly
+    when ALL bits of its mask are set in x  (x & mask == mask)"""
+    j = t.var('fe!', t.INT)
+    key = t.app('map_key', t.VAL, m.ident, j)
+    name = t.app('sval', t.STR, key)
+    mask = t.app('ival', t.INT, t.app('map_get', t.VAL, m.ident, key))
+    fields, keys = t.T('Fields', 'select', (H, addr)), t.T('Keys', 'select', (D, addr))
+    want = t.app('VBool', t.VAL, t.eq(t.app('band', t.INT, x, mask), mask))
+    body = t.and_(t.T(t.BOOL, 'select', (keys, name)), t.eq(t.T(t.VAL, 'select', (fields, name)), want))
+    return t.forall([j], t.implies(t.and_(t.le(t.ZERO, j), t.lt(j, upto)), body), pats=[[key]])
+
+
+def _fe_inv(L):
+    pre = L.extra['pre']
+    m = pre.self.fields['flags']
+    x = t.app('toint', t.INT, pre['obj'].t)
+    R = L.obj('obj2')
+    return [('labels-decoded-so-far', _fe_entries(m, x, L.st.ghost['H'], L.st.ghost['D'], R.addr, L.k)),
+            ('result-container-keeps-its-identity', t.eq(R.addr, L.oldobj('obj2').addr))]
+
+
+def _fe_decode_ok(pre, post):
+    m = pre.self.fields['flags']
+    x = t.app('toint', t.INT, pre['obj'].t)
+    r = post.result
+    addr = post.st.get(r).addr if isinstance(r, VRef) else t.app('ref', t.INT, r.t)
+    n = t.app('map_len', t.INT, m.ident)
+    return [('every-label-is-set-exactly-when-all-bits-of-its-mask-are-set', _fe_entries(m, x, post.st.ghost['H'], post.st.ghost['D'], addr, n), TM),
+            ('result-is-a-fresh-container', t.ge(addr, pre.st.ghost['alloc']), TM + ('C17',))]
+
+
+fcontract('FlagsEnum', '_decode', [
+    Case('any-int', 'return', lambda pre: t.TRUE, rkind=rk_dyn, ensures=_fe_decode_ok),
+], loops={'for (name, value) in self.flags.items()': LoopSpec(_fe_inv, tags=TM)}, tags=TM, sub_seq=False,
+    requires=lambda pre: [('obj-is-int', _isint(pre['obj'].t))])
